@@ -280,6 +280,25 @@ def main():
             os.dup2(stderr_fd, 2)
             os.close(stderr_fd)
         _verif.emit("run_end", run=rid)
+        # the default output form (output_dict=False: a list with one reaction string per input)
+        plain, plain_used = [], False
+        if run.get("also_plain") and form in ("list", "dict"):
+            plain_used = True
+            data2 = list(inputs) if form == "list" else [dict(x) if isinstance(x, dict) else {col: x} for x in inputs]
+            stderr_fd = os.dup(2)
+            os.dup2(devnull.fileno(), 2)
+            try:
+                if run.get("ctor_bs"):
+                    b2 = Balancer(reaction_col=col, n_jobs=run.get("n_jobs", 1), batch_size=run.get("batch_size"))
+                    plain = b2.rebalance(data2)
+                else:
+                    plain = b.rebalance(data2, batch_size=run.get("batch_size"))
+                plain = [x if isinstance(x, str) else repr(x) for x in plain]
+            except Exception as ex:
+                plain = ["RAISED " + repr(ex)]
+            finally:
+                os.dup2(stderr_fd, 2)
+                os.close(stderr_fd)
         if tmp:
             os.remove(tmp)
         wall = time.time() - t0
@@ -308,7 +327,7 @@ def main():
               "args": [a if isinstance(a, str) else repr(a) for a in args],
               "arg_facts": [{k: v for k, v in proj.facts(a if isinstance(a, str) else "").items()
                              if k in ("parses", "l", "r")} for a in args],
-              "kinds": run.get("kinds", []),
+              "kinds": run.get("kinds", []), "plain_used": plain_used, "plain": plain,
               "wall_s": round(wall, 2)})
     out.close()
     with open(out_file + ".mols.json", "w") as f:
